@@ -912,7 +912,7 @@ Lemma ety_ESlice F G t l lo hi : ety F G (ESlice t l lo hi) =
       match ety F G l with
       | Some a =>
           match a with
-          | TArr _ | TStr => if ty_eqb a t && etyo F G lo && etyo F G hi then Some t else None
+          | TArr _ | TEmptyArr | TStr => if ty_eqb a t && etyo F G lo && etyo F G hi then Some t else None
           | _ => None
           end
       | None => None
@@ -1017,6 +1017,9 @@ Proof.
       destruct (Nat.ltb b 0); [exact I|reflexivity].
     + apply wp_ret. destruct (Nat.ltb len 0); [exact I|reflexivity].
 Qed.
+
+Lemma firstn_skipn_nil {A} n m : firstn n (skipn m (@nil A)) = [].
+Proof. destruct n, m; reflexivity. Qed.
 
 Lemma Forall_firstn {A} (P : A -> Prop) n l : Forall P l -> Forall P (firstn n l).
 Proof. intros H; revert n; induction H; destruct n; simpl; constructor; auto. Qed.
@@ -1557,9 +1560,38 @@ Proof.
   intros [->| ->]; simpl; destruct (ty_compat a b); try discriminate; intros H; inversion H; auto.
 Qed.
 
+Lemma concat_nils (parts : list (list loc)) : Forall (fun b => b = []) parts -> List.concat parts = [].
+Proof. induction 1; simpl; auto. subst. auto. Qed.
+
+(* + and * on the untyped []: the result is the empty array, at whatever array type the parser inferred *)
+Lemma bin_arr_empty_wp S0 S G e s op lb tb t :
+  ext S0 S -> inv S G e s -> bin_empty op TEmptyArr tb t = true -> sfind S lb = Some tb -> ty_ok1 t = true ->
+  wp (bin_arr op [] lb s) (epost S0 G e t).
+Proof.
+  intros E0 Hi Hbe Hlb Hok. pose proof Hi as [Hh He].
+  assert (Hcell : cell_ok S (HArr []) t).
+  { destruct op, tb; simpl in Hbe; try discriminate; destruct t; try discriminate; constructor; constructor. }
+  destruct op; simpl in Hbe; try discriminate; destruct tb; try discriminate.
+  - cbn [bin_arr]. wbind ltac:(eapply load_wp; eauto). intros rv s1 [-> Hrv]. inversion Hrv; subst.
+    unfold bindM at 1. unfold depth_fuel at 1. cbn [mapM]. unfold bindM, ret.
+    eapply alloc_epost; eauto.
+  - cbn [bin_arr]. wbind ltac:(eapply load_num_wp; eauto). intros f s1 ->.
+    destruct (go_int_exact f) as [n|]; [|exact I].
+    destruct (n <? 0); [exact I|].
+    match goal with |- context [if ?c then _ else _] => destruct c; [exact I|] end.
+    unfold bindM at 1. unfold depth_fuel at 1. cbn [mapM].
+    wbind ltac:(eapply (mapM_wp (fun _ : unit => ret (@nil loc)) (fun _ _ => True)
+                          (fun _ _ b => b = []) (st_globals s)); eauto).
+    + intros S1 s1 _ Hh1 Hg1 _. apply wp_ret. hdone S1.
+    + clear. induction (repeat tt (Z.to_nat n)); constructor; auto.
+    + intros parts s2 (S2 & E2 & Hh2 & Hg2 & HF2).
+      rewrite concat_nils by (clear -HF2; induction HF2; constructor; auto).
+      eapply (alloc_epost S0 S2); eauto using ext_trans, cell_ok_ext. eapply inv_step; eauto.
+Qed.
+
 Lemma ebin_tail S0 S G e s op la lb ta tb t :
   ext S0 S -> inv S G e s -> sfind S la = Some ta -> sfind S lb = Some tb ->
-  bin_ty op ta tb = Some t -> ty_ok1 t = true ->
+  (bin_ty op ta tb = Some t \/ bin_empty op ta tb t = true) -> ty_ok1 t = true ->
   wp ((match op with
        | BEq => let* d := depth_fuel in let* r := equals d la lb in alloc (HBool r)
        | BNotEq => let* d := depth_fuel in let* r := equals d la lb in alloc (HBool (negb r))
@@ -1574,7 +1606,21 @@ Lemma ebin_tail S0 S G e s op la lb ta tb t :
            end
        end) s) (epost S0 G e t).
 Proof.
-  intros E0 Hi Hla Hlb Hbin Hok. pose proof Hi as [Hh He].
+  intros E0 Hi Hla Hlb [Hbin|Hbe] Hok; pose proof Hi as [Hh He].
+  2:{ (* an operator on the untyped [] *)
+    assert (ta = TEmptyArr) by (destruct op, ta; simpl in Hbe; try discriminate; auto). subst ta.
+    assert (Hne : op = BPlus \/ op = BAsterisk) by (destruct op; simpl in Hbe; try discriminate; auto).
+    assert (W : wp ((let* va := load la in
+                     match va with
+                     | HNum y => let* z := load_num lb in bin_num op y z
+                     | HStr y => let* z := load_str lb in bin_str op y z
+                     | HBool y => let* z := load_bool lb in bin_bool op y z
+                     | HArr xs => bin_arr op xs lb
+                     | _ => internal "unknown operation (binary)"
+                     end) s) (epost S0 G e t)).
+    { wbind ltac:(eapply load_wp; eauto). intros va s1 [-> Hva]. inversion Hva; subst.
+      eapply bin_arr_empty_wp; eauto. }
+    destruct Hne as [->| ->]; exact W. }
   assert (EQ : forall b : bool, (op = BEq \/ op = BNotEq) ->
             wp ((let* d := depth_fuel in let* r := equals d la lb in alloc (HBool (if b then negb r else r))) s)
                (epost S0 G e t)).
@@ -1753,8 +1799,10 @@ Section ExprStep.
       apply andb_true_iff in Hs1 as [Hs1 Hs1c]. apply andb_true_iff in Hs1 as [Hs1a Hs1b].
       destruct (ety (p_funcs P) G x1) as [ta|] eqn:Ea; [|discriminate].
       destruct (ety (p_funcs P) G x2) as [tb|] eqn:Eb; [|discriminate].
-      destruct (opt_ty_eqb (bin_ty op ta tb) t0 && ty_ann t0) eqn:Ec; inversion Hty; subst.
-      apply andb_true_iff in Ec as [Ec1 Ec2]. apply opt_ty_eqb_eq in Ec1.
+      destruct ((opt_ty_eqb (bin_ty op ta tb) t0 || bin_empty op ta tb t0) && ty_ann t0) eqn:Ec; inversion Hty; subst.
+      apply andb_true_iff in Ec as [Ec1 Ec2].
+      assert (Hb : bin_ty op ta tb = Some t \/ bin_empty op ta tb t = true).
+      { apply orb_true_iff in Ec1 as [H|H]; [left; apply opt_ty_eqb_eq; auto|right; auto]. }
       pose proof (ty_ann_fr_ok1 _ Ec2 Hs1a) as Hok.
       wbind ltac:(eapply IHe; eauto). intros la s1 (S1 & E1 & Hi1 & Hla).
       wbind ltac:(eapply load_wp; eauto; apply Hi1). intros va0 s2 [-> Hva0].
@@ -1762,7 +1810,7 @@ Section ExprStep.
       + (* short circuit: the left operand is a bool *)
         assert (ta = TBool /\ tb = TBool) as [-> ->].
         { destruct op; try discriminate; destruct va0; try discriminate; inversion Hva0; subst;
-            destruct tb; simpl in Ec1; try discriminate; auto. }
+            destruct Hb as [Hb|Hb]; destruct tb; simpl in Hb; try discriminate; auto. }
         apply wp_bind. apply wp_ret.
         eapply (ebin_tail S S1); eauto.
       + wbind ltac:(eapply (IHe P e x2 G tb S1); eauto). intros lb s2 (S2 & E2 & Hi2 & Hlb).
@@ -1808,9 +1856,9 @@ Section ExprStep.
       apply andb_true_iff in Hs1 as [Hs1a Hs1b].
       destruct (ety (p_funcs P) G x) as [ta|] eqn:Ea; [|discriminate].
       assert (Hc : ty_eqb ta t0 && etyo (p_funcs P) G lo && etyo (p_funcs P) G hi = true /\ t = t0
-                   /\ (ta = TStr \/ exists u, ta = TArr u)).
+                   /\ (ta = TStr \/ (exists u, ta = TArr u) \/ ta = TEmptyArr)).
       { destruct ta; try discriminate;
-          (destruct (ty_eqb _ t0 && etyo (p_funcs P) G lo && etyo (p_funcs P) G hi); inversion Hty; eauto). }
+          (destruct (ty_eqb _ t0 && etyo (p_funcs P) G lo && etyo (p_funcs P) G hi); inversion Hty; eauto 6). }
       destruct Hc as (Hc & -> & Hta). apply andb_true_iff in Hc as [Hc Hc3]. apply andb_true_iff in Hc as [Hc1 Hc2].
       apply ty_eqb_eq in Hc1; subst ta.
       wbind ltac:(eapply IHe; eauto). intros la s1 (S1 & E1 & Hi1 & Hla).
@@ -1818,7 +1866,7 @@ Section ExprStep.
       wbind ltac:(eapply eval_opt_wp; eauto). intros lhi s3 (S3 & E3 & Hi3 & Hhi).
       pose proof Hi3 as [Hh3 He3].
       wbind ltac:(eapply load_wp; [exact Hh3|]; eauto). intros va s4 [-> Hva].
-      destruct Hta as [->|(u & ->)]; inversion Hva; subst.
+      destruct Hta as [->|[(u & ->)| ->]]; inversion Hva; subst.
       + wbind ltac:(eapply slice_bounds_wp; eauto). intros [a b] s4 ->.
         eapply (alloc_epost S S3); eauto using ext_trans. constructor.
       + wbind ltac:(eapply slice_bounds_wp; eauto). intros [a b] s4 ->.
@@ -1831,6 +1879,11 @@ Section ExprStep.
         * eapply inv_step; eauto.
         * constructor; auto.
         * eapply ho_tys; [exact Hh3|]. eauto.
+      + (* a slice of the untyped [] *)
+        wbind ltac:(eapply slice_bounds_wp; eauto). intros [a b] s4 ->.
+        apply wp_depth_fuel.
+        rewrite firstn_skipn_nil. cbn [mapM]. unfold bindM at 1. cbn [ret].
+        eapply (alloc_epost S S3); eauto using ext_trans; constructor.
     - (* EDot *)
       cbn [ety] in Hty. cbn [s1_expr] in Hs1. apply andb_true_iff in Hs1 as [Hs1a Hs1b].
       destruct (ety (p_funcs P) G x) as [ta|] eqn:Ea; [|discriminate].
